@@ -62,6 +62,8 @@ type vOp struct {
 	Ext      *string    `json:"ext"` // hex
 	Upd      *bool      `json:"upd"`
 	JSON     *vJSONCfg  `json:"json"`
+	Via      string     `json:"via"` // "util": the Match* call is written in the util test file (MatchSnapshot only)
+	JSON2    *vJSONCfg  `json:"json2"` // an EARLIER JSON option in the same WithConfig call (overridden by `json`)
 	CI       bool       `json:"ci"`
 	UpdVar   string     `json:"updvar"` // unset | true | clean | other
 	Colour   bool       `json:"colour"`
@@ -513,6 +515,7 @@ type vRunner struct {
 	tests map[string]*vT
 	cfgs  []*Config
 	fresh []func() *Config // rebuilds handle h's Config from the options it was created with (never used for a call)
+	jsonOpts map[string]func(*Config) // JSON option values shared by the Configs of a case
 	idx   int
 	// matcher values are reused for identical specs within a case, the way a table test
 	// shares one matcher across documents
@@ -638,6 +641,9 @@ func (r *vRunner) doMatch(o vOp) {
 				cfg.MatchSnapshot(t, vals...)
 			}
 		}
+		if o.Via == "util" {
+			call = func() { vUtilMatchSnapshot(cfg, t, vals...) }
+		}
 	case "json", "standjson":
 		doc := vunhex(o.Doc)
 		// what the call must be judged against is computed WITHOUT the library's own validateJSON: text input is
@@ -720,7 +726,11 @@ func (r *vRunner) doMatch(o vOp) {
 		panic("api " + o.API)
 	}
 
-	fmt.Fprintf(r.w, "op match api=%s h=%d test=%s pre=%s%s\n", o.API, o.H, vhex([]byte(name)), pre, jsonExtra)
+	via := ""
+	if o.Via != "" {
+		via = " via=" + o.Via
+	}
+	fmt.Fprintf(r.w, "op match api=%s h=%d test=%s pre=%s%s%s\n", o.API, o.H, vhex([]byte(name)), pre, jsonExtra, via)
 
 	before := r.sb.scan()
 	ev0 := vEvents()
@@ -805,6 +815,7 @@ func (r *vRunner) run(c vCase) {
 	r.tests = map[string]*vT{}
 	r.cfgs = nil
 	r.fresh = nil
+	r.jsonOpts = nil
 	r.idx = 0
 	r.mcache = nil
 	_, callerFile := vCaller()
@@ -896,8 +907,20 @@ func (r *vRunner) run(c vCase) {
 				opts = append(opts, Update(*o.Upd))
 				updS = vb(*o.Upd)
 			}
+			if o.JSON2 != nil {
+				opts = append(opts, JSON(JSONConfig{Width: o.JSON2.Width, Indent: o.JSON2.Indent, SortKeys: o.JSON2.SortKeys}))
+			}
 			if o.JSON != nil {
-				opts = append(opts, JSON(JSONConfig{Width: o.JSON.Width, Indent: o.JSON.Indent, SortKeys: o.JSON.SortKeys}))
+				// option VALUES are shared between the Configs of a case that declare the same JSON options, the way a test
+				// file keeps `sorted := snaps.JSON(...)` in a variable: an option value must not remember where it was used
+				key := fmt.Sprintf("%d|%q|%v", o.JSON.Width, o.JSON.Indent, o.JSON.SortKeys)
+				if r.jsonOpts == nil {
+					r.jsonOpts = map[string]func(*Config){}
+				}
+				if _, ok := r.jsonOpts[key]; !ok {
+					r.jsonOpts[key] = JSON(JSONConfig{Width: o.JSON.Width, Indent: o.JSON.Indent, SortKeys: o.JSON.SortKeys})
+				}
+				opts = append(opts, r.jsonOpts[key])
 			}
 			r.cfgs = append(r.cfgs, WithConfig(opts...))
 			jsonOpt := o.JSON
